@@ -172,8 +172,17 @@ func (s zzLeafSnap) sameAs(c ResultContext, label string) {
 // preimage; a second account can be ejected; balances are ample so that mutations succeed.
 func zzRichCtx() (OmegaInput, *Registers) { return zzRichCtxN(-1) }
 
+// zzPoorCaller: the caller's balance is arbitrary (0..2^40) instead of ample, so that the
+// FULL/CASH outcomes of the mutating calls are reachable.
+var zzPoorCaller = false
+
 func zzRichCtxN(nslots int) (OmegaInput, *Registers) {
-	caller := zzEmptyAccount(types.ServiceInfo{Balance: 1 << 40, Items: 3, Bytes: 200})
+	bal := types.U64(1 << 40)
+	if zzPoorCaller {
+		bal = types.U64(zzvt.U64("callerBalance"))
+		zzvt.Assume(bal <= 1<<40)
+	}
+	caller := zzEmptyAccount(types.ServiceInfo{Balance: bal, Items: 3, Bytes: 200})
 	caller.StorageDict["a"] = []byte{zzvt.U8("stored")}
 	var lh types.OpaqueHash
 	lh[0] = 7
@@ -276,4 +285,37 @@ func ZZ_C10_checkpoint() {
 		zzvt.Cover("mutation-took-place")
 	}
 	snapY.sameAs(res.Addition.ResultContextY, "checkpoint-copy-unaffected-by-later-mutation")
+}
+
+// ZZ_C10_out_of_gas_call: a host call (checkpoint included) that cannot pay its 10 units of gas
+// (every gas balance 0..9) exits out-of-gas with the working context x, the checkpoint
+// y, the registers and the guest memory exactly as they were; x differs from y beforehand in
+// the yielded hash, a deferred transfer and a storage entry, so a checkpoint taken before the
+// charge would show. Psi_A's collapse then yields y (ZZ_C10_collapse).
+//zz:workers=8
+func ZZ_C10_out_of_gas_call() {
+	zzCallerAssigns = true
+	hc := zzAccumulateCalls[zzvt.Range("hostCall", 0, len(zzAccumulateCalls)-1)]
+	in, regs := zzRichCtxN(2)
+	var yh types.OpaqueHash
+	yh[0] = 0x77
+	x := &in.Addition.ResultContextX
+	x.Exception = &yh
+	x.DeferredTransfers = append(x.DeferredTransfers, types.DeferredTransfer{SenderID: zzCaller, ReceiverID: zzBystander, Balance: 5})
+	x.PartialState.ServiceAccounts[zzCaller].StorageDict["b"] = []byte{1}
+	g := Gas(zzvt.I64("gas"))
+	zzvt.Assume(g >= 0 && g < 10) // the instruction loop never enters a host call with a negative balance (C04)
+	*in.VM.Gas = g
+	before := *regs
+	snapX := zzSnapCtx(in.Addition.ResultContextX)
+	snapY := zzSnapCtx(in.Addition.ResultContextY)
+	mem0 := zzGuestSnap(in.VM.Memory)
+	out := hc.fn(in)
+	zzvt.Assert(out.ExitReason.GetReasonType() == OUT_OF_GAS, "unpayable-call-is-out-of-gas")
+	snapX.sameAs(out.Addition.ResultContextX, "out-of-gas-call-leaves-working-context")
+	snapY.sameAs(out.Addition.ResultContextY, "out-of-gas-call-leaves-checkpoint")
+	for i := range regs {
+		zzvt.Assert(regs[i] == before[i], "out-of-gas-call-leaves-registers")
+	}
+	zzvt.Assert(zzvt.EqBytes(in.VM.Memory.Pages[16].Value[:512], mem0[16][:512]), "out-of-gas-call-writes-no-guest-memory")
 }
